@@ -14,6 +14,8 @@ import (
 	"sync"
 	"sync/atomic"
 	"time"
+
+	"github.com/ARM-software/golang-utils/utils/logs"
 )
 
 // Finding is one refuting observation made by a child.
@@ -25,37 +27,39 @@ type Finding struct {
 
 // Result is what a child reports to the coordinator.
 type Result struct {
-	Case            Case              `json:"case"`
-	Findings        []Finding         `json:"findings"`
-	Notes           []string          `json:"notes,omitempty"`
-	Inconclusive    string            `json:"inconclusive,omitempty"`
-	HarnessError    string            `json:"harness_error,omitempty"`
-	Produced        int64             `json:"produced"`
-	ProducedO       int64             `json:"produced_output"`
-	ProducedE       int64             `json:"produced_error"`
-	Verified        int64             `json:"verified"`   // (group, id) pairs found with exactly the expected multiplicity, intact
-	SinkLines       int64             `json:"sink_lines"` // lines parsed back
-	IDLines         int64             `json:"id_lines"`   // lines carrying a message id
-	Switches        int64             `json:"switches"`   // adjacent sink lines from different producers (actual interleaving of producers)
-	MaxActive       int64             `json:"max_active"` // most producers inside the workload at once
-	SetLogSrc       int64             `json:"set_log_source_calls"`
-	SetLoggerSrc    int64             `json:"set_logger_source_calls"`
-	SetErrors       int64             `json:"set_source_errors"`
-	AppendCalls     int64             `json:"append_calls"`
-	NonMemberJudged int64             `json:"non_member_judged"` // messages checked to be ABSENT from a sink that is not a member of the composite they went through
-	AppendJudged    int64             `json:"append_judged"`     // messages begun after a concurrent Append returned, judged against the appended member
-	Groups          int               `json:"groups"`
-	Multiplicity    map[string][2]int `json:"sequential_multiplicity,omitempty"`
-	MaxPayload      int               `json:"max_payload"`
-	MinPayload      int               `json:"min_payload"`
-	AsyncProduced   int64             `json:"async_produced,omitempty"`
-	AsyncDeliv      int64             `json:"async_delivered,omitempty"`
-	AsyncReported   int64             `json:"async_reported_dropped,omitempty"`
-	AsyncReports    int64             `json:"async_drop_reports,omitempty"`
-	AsyncStuck      int64             `json:"async_held_back_until_flush,omitempty"`
-	QuietLeak       int64             `json:"quiet_output_leaked,omitempty"`
-	WorkloadMS      int64             `json:"workload_ms"`
-	SampleLines     []string          `json:"sample_lines,omitempty"`
+	Case                 Case              `json:"case"`
+	Findings             []Finding         `json:"findings"`
+	Notes                []string          `json:"notes,omitempty"`
+	Inconclusive         string            `json:"inconclusive,omitempty"`
+	HarnessError         string            `json:"harness_error,omitempty"`
+	Produced             int64             `json:"produced"`
+	ProducedO            int64             `json:"produced_output"`
+	ProducedE            int64             `json:"produced_error"`
+	FramingJudged        int64             `json:"framing_judged"`
+	FramingNotCalibrated int64             `json:"framing_not_calibrated"`
+	Verified             int64             `json:"verified"`   // (group, id) pairs found with exactly the expected multiplicity, intact
+	SinkLines            int64             `json:"sink_lines"` // lines parsed back
+	IDLines              int64             `json:"id_lines"`   // lines carrying a message id
+	Switches             int64             `json:"switches"`   // adjacent sink lines from different producers (actual interleaving of producers)
+	MaxActive            int64             `json:"max_active"` // most producers inside the workload at once
+	SetLogSrc            int64             `json:"set_log_source_calls"`
+	SetLoggerSrc         int64             `json:"set_logger_source_calls"`
+	SetErrors            int64             `json:"set_source_errors"`
+	AppendCalls          int64             `json:"append_calls"`
+	NonMemberJudged      int64             `json:"non_member_judged"` // messages checked to be ABSENT from a sink that is not a member of the composite they went through
+	AppendJudged         int64             `json:"append_judged"`     // messages begun after a concurrent Append returned, judged against the appended member
+	Groups               int               `json:"groups"`
+	Multiplicity         map[string][2]int `json:"sequential_multiplicity,omitempty"`
+	MaxPayload           int               `json:"max_payload"`
+	MinPayload           int               `json:"min_payload"`
+	AsyncProduced        int64             `json:"async_produced,omitempty"`
+	AsyncDeliv           int64             `json:"async_delivered,omitempty"`
+	AsyncReported        int64             `json:"async_reported_dropped,omitempty"`
+	AsyncReports         int64             `json:"async_drop_reports,omitempty"`
+	AsyncStuck           int64             `json:"async_held_back_until_flush,omitempty"`
+	QuietLeak            int64             `json:"quiet_output_leaked,omitempty"`
+	WorkloadMS           int64             `json:"workload_ms"`
+	SampleLines          []string          `json:"sample_lines,omitempty"`
 }
 
 const alphabet = "jkqvwxz"
@@ -115,6 +119,9 @@ type parsed struct {
 	interl    []string
 	corrupt   []string
 	fragments []string
+	frames    map[string]int    // framing (line minus its message, volatile parts removed) of the lines carrying one valid message of a producer
+	frameEx   map[string]string // one example line per framing
+	ref       map[string]bool   // framings of the lines logged alone (sequential calibration)
 	nTorn     int
 	nInterl   int
 	nCorrupt  int
@@ -133,6 +140,18 @@ func keep(l *[]string, s string) {
 	if len(*l) < 4 {
 		*l = append(*l, clip(s))
 	}
+}
+
+var reVolatile = regexp.MustCompile(`[0-9.:+\-]+`)
+var reSource = regexp.MustCompile(`\b(lsrc|src|sn)\b`)
+
+// framing is what a sink line holds around its message: the decoration the logger adds (prefix, JSON envelope...),
+// with digits, time punctuation and the source names (which the workload changes) removed.
+func framing(line, message string) string {
+	f := strings.Replace(line, message, "<M>", 1)
+	f = reVolatile.ReplaceAllString(f, "")
+	f = reSource.ReplaceAllString(f, "S")
+	return strings.Join(strings.Fields(f), " ")
 }
 
 func (p *parsed) add(content string, streams map[[2]int]byte) {
@@ -178,6 +197,25 @@ func (p *parsed) add(content string, streams map[[2]int]byte) {
 				p.switches++
 			}
 			last = prod
+		}
+		if valid == 1 && len(starts) == 1 && len(fulls) == 1 {
+			m := fulls[0]
+			prod, _ := strconv.Atoi(line[m[2]:m[3]])
+			f := framing(line, line[m[0]:m[1]])
+			if prod == 0 {
+				if p.ref == nil {
+					p.ref = map[string]bool{}
+				}
+				p.ref[f] = true
+			} else {
+				if p.frames == nil {
+					p.frames, p.frameEx = map[string]int{}, map[string]string{}
+				}
+				p.frames[f]++
+				if _, ok := p.frameEx[f]; !ok {
+					p.frameEx[f] = clip(line)
+				}
+			}
 		}
 		if len(starts) > valid {
 			p.nTorn++
@@ -550,6 +588,39 @@ func judgeGroup(c Case, b *built, g *group, pp *parsed, all [][]msg, masks [][]u
 	report("interleaved", pp.nInterl, pp.interl, "carry two different message ids (messages interleaved within a line)")
 	report("corrupt", pp.nCorrupt, pp.corrupt, "carry a well-formed message whose checksum/stream does not match what was produced")
 	report("fragment", pp.nFrag, pp.fragments, "carry a payload fragment without any id")
+	// framing: a line carrying a message of the concurrent workload looks like a line logged alone
+	// (only for workloads without SetLogSource/SetLoggerSource/Append callers: several adapters legitimately grow
+	// their decoration with every source they are given)
+	ref := pp.ref
+	if (c.SetSrc && c.Ctor != "async") || len(b.appendFns) > 0 {
+		ref = nil
+	} else if len(ref) == 0 {
+		ref = framingReference(c)
+	}
+	if len(ref) > 0 && !b.roundtrip {
+		res.FramingJudged += int64(len(pp.frames))
+		n := 0
+		var ex []string
+		for f, cnt := range pp.frames {
+			if !ref[f] {
+				n += cnt
+				if len(ex) < 4 {
+					ex = append(ex, pp.frameEx[f])
+				}
+			}
+		}
+		var refs []string
+		for f := range ref {
+			refs = append(refs, f)
+		}
+		if n > 0 {
+			res.Findings = append(res.Findings, Finding{Sig: sig(c, g, "misframed", "concurrent"),
+				What:    fmt.Sprintf("%s: %d sink line(s) of %s carry one message but not the decoration of a line logged alone (decoration of another message in the same line, or a message without its own)", c.Ctor, n, g.name),
+				Witness: map[string]any{"case": c, "group": g.name, "count": n, "lines": ex, "framing_of_lines_logged_alone": refs}})
+		}
+	} else if !b.roundtrip {
+		res.FramingNotCalibrated++
+	}
 
 	if b.async {
 		// exactly-once is replaced by the drop accounting (judgeAsync); duplicates are still judged
@@ -745,4 +816,59 @@ func quiesce(b *built, c Case, produced int64) bool {
 			return false
 		}
 	}
+}
+
+// framingReference logs two messages alone through a fresh instance of the ring-buffered constructors (which get no
+// sequential calibration in the judged instance because they may drop) and returns the framings of the resulting lines.
+func framingReference(c Case) map[string]bool {
+	var lg logs.Loggers
+	var err error
+	var sinks []*recSink
+	poll := time.Millisecond
+	switch c.Ctor {
+	case "async":
+		so, se := &recSink{}, &recSink{}
+		sinks = []*recSink{so, se}
+		lg, err = logs.NewAsynchronousLoggers(so, se, 64, poll, "lsrc", "src", &dropCounter{})
+	case "json-slow":
+		s := &recSink{}
+		sinks = []*recSink{s}
+		lg, err = logs.NewJSONLoggerForSlowWriter(s, 64, poll, "lsrc", "src", &dropCounter{})
+	default:
+		return nil
+	}
+	if err != nil || lg == nil {
+		return nil
+	}
+	defer func() { _ = lg.Close() }()
+	ref := map[string]bool{}
+	for i, st := range []byte{'O', 'E', 'O', 'E'} {
+		body := fmt.Sprintf("0-%d-%c %s", i+1, st, strings.Repeat("q", i+1))
+		text := fmt.Sprintf("m%s %08x", body, crc32.ChecksumIEEE([]byte(body)))
+		if st == 'O' {
+			lg.Log(text)
+		} else {
+			lg.LogError(text)
+		}
+		for w := 0; w < 400; w++ {
+			found := false
+			for _, s := range sinks {
+				if strings.Contains(s.Content(), text) {
+					found = true
+				}
+			}
+			if found {
+				break
+			}
+			time.Sleep(5 * time.Millisecond)
+		}
+	}
+	for _, s := range sinks {
+		for _, line := range strings.Split(s.Content(), "\n") {
+			if m := reFull.FindStringIndex(line); m != nil {
+				ref[framing(line, line[m[0]:m[1]])] = true
+			}
+		}
+	}
+	return ref
 }
